@@ -374,6 +374,12 @@ class _AbstractDistribution(metaclass=_ABCMeta):
             return _numpy.inf
         return 0.0
 
+    def _effective_bounds(self):
+        """The lower and upper bounds in force for every coordinate, as two
+        (dimensions, 1) arrays (or None where there are none). Distributions that keep
+        bounds in their parts override this."""
+        return self.lower_bounds, self.upper_bounds
+
 
 class StandardNormal1D(_AbstractDistribution):
     """Standard normal distribution in 1 dimension."""
@@ -916,6 +922,26 @@ class CompositeDistribution(_AbstractDistribution):
         """Method to restructure all composite bounds into top level object."""
         raise NotImplementedError()
 
+    def _effective_bounds(self):
+        """The bounds of the blocks (which are kept in the blocks, at any depth) stacked
+        into (dimensions, 1) arrays, with infinities where a block has none, intersected
+        with the bounds of the object itself."""
+        lowers, uppers = [], []
+        for distribution in self.separate_distributions:
+            lower, upper = distribution._effective_bounds()
+            shape = (distribution.dimensions, 1)
+            lowers.append(_numpy.full(shape, -_numpy.inf) if lower is None else lower)
+            uppers.append(_numpy.full(shape, _numpy.inf) if upper is None else upper)
+        lower, upper = _numpy.vstack(lowers), _numpy.vstack(uppers)
+        if self.lower_bounds is not None:
+            lower = _numpy.maximum(lower, self.lower_bounds)
+        if self.upper_bounds is not None:
+            upper = _numpy.minimum(upper, self.upper_bounds)
+        return (
+            lower if _numpy.any(lower > -_numpy.inf) else None,
+            upper if _numpy.any(upper < _numpy.inf) else None,
+        )
+
     def corrector(self, coordinates: _numpy.ndarray, momentum: _numpy.ndarray):
         """Override method to correct an HMC particle for composite distribution, which
         is called after every time integration step. Calls all sub-correctors only if
@@ -959,29 +985,12 @@ class CompositeDistribution(_AbstractDistribution):
                 momentum, self.enumerated_dimensions_cumulative
             )
 
-            # And loop over separate distributions to check bounds
+            # And let every separate distribution correct its own block (the blocks are
+            # views, so this works in place); a block can be a composite itself
             for i_distribution, distribution in enumerate(self.separate_distributions):
-
-                if distribution.lower_bounds is not None:
-                    # Lower bound correction
-                    too_low = (
-                        split_coordinates[i_distribution] < distribution.lower_bounds
-                    )
-                    split_coordinates[i_distribution][too_low] += 2 * (
-                        distribution.lower_bounds[too_low]
-                        - split_coordinates[i_distribution][too_low]
-                    )
-                    split_momenta[i_distribution][too_low] *= -1.0
-                if distribution.upper_bounds is not None:
-                    # Upper bound correction
-                    too_high = (
-                        split_coordinates[i_distribution] > distribution.upper_bounds
-                    )
-                    split_coordinates[i_distribution][too_high] += 2 * (
-                        distribution.upper_bounds[too_high]
-                        - split_coordinates[i_distribution][too_high]
-                    )
-                    split_momenta[i_distribution][too_high] *= -1.0
+                distribution.corrector(
+                    split_coordinates[i_distribution], split_momenta[i_distribution]
+                )
 
     @staticmethod
     def create_default(dimensions: int) -> "CompositeDistribution":
@@ -1074,38 +1083,42 @@ class AdditiveDistribution(_AbstractDistribution):
             # Assert that every subdistribution has the right shape
             assert distribution.dimensions == self.dimensions
 
+            # The bounds in force in the subdistribution (those of its blocks, if it is
+            # a composite)
+            sub_lower_bounds, sub_upper_bounds = distribution._effective_bounds()
+
             # If the subdistribution has lower bounds ... act
-            if distribution.lower_bounds is not None:
+            if sub_lower_bounds is not None:
 
                 # Assert the bounds have the right shape
-                assert distribution.lower_bounds.shape == (self.dimensions, 1)
+                assert sub_lower_bounds.shape == (self.dimensions, 1)
 
                 if self.lower_bounds is None:
                     # If the top level distribution doesn't have lower bounds yet,
                     # simply add the new bounds
-                    self.lower_bounds = distribution.lower_bounds
+                    self.lower_bounds = sub_lower_bounds
                 else:
                     # If the top level distribution does already have lower bounds, take
                     #  the maximum of every separate bound
                     self.lower_bounds = _numpy.maximum(
-                        self.lower_bounds, distribution.lower_bounds
+                        self.lower_bounds, sub_lower_bounds
                     )
 
             # If the subdistribution has upper bounds ... act
-            if distribution.upper_bounds is not None:
+            if sub_upper_bounds is not None:
 
                 # Assert the bounds have the right shape
-                assert distribution.upper_bounds.shape == (self.dimensions, 1)
+                assert sub_upper_bounds.shape == (self.dimensions, 1)
 
                 if self.upper_bounds is None:
                     # If the top level distribution doesn't have upper bounds yet,
                     # simply add the new bounds
-                    self.upper_bounds = distribution.upper_bounds
+                    self.upper_bounds = sub_upper_bounds
                 else:
                     # If the top level distribution does already have upper bounds, take
                     # the minimum of every separate bound
                     self.upper_bounds = _numpy.minimum(
-                        self.upper_bounds, distribution.upper_bounds
+                        self.upper_bounds, sub_upper_bounds
                     )
 
     def add_distribution(self, distribution: _AbstractDistribution):
